@@ -1,2 +1,83 @@
-/* models.c -- contract models used in harness-mode targets (see unit.json "trusted") */
+/* models.c -- contract models for harness-mode targets (plain cbmc has no --replace-call-with-contract).
+ *
+ * -DM_NAMEUNPACK: every call of rfc1035NameUnpack (from rfc1035RRUnpack, rfc1035QueryUnpack and the recursive call inside
+ *   rfc1035NameUnpack itself, whose real definition is then named rfc1035NameUnpack_real) goes to the model below, which IS
+ *   the contract NAMEUNPACK_CONTRACT of contract.c, clause by clause, in the replace-call-with-contract reading:
+ *   requires -> asserted at the call, assigns -> havocked, ensures -> assumed.  The contract itself is proved on the real
+ *   function by the targets `nameunpack` (--dfcc --enforce-contract-rec: everything but the NUL clause) and
+ *   `nameunpack_term` (the NUL clause, by induction over 65 - rdepth with this model as the induction hypothesis).
+ * -DM_RRDESTROY: rfc1035RRDestroy is the real loop restricted to the first KMAX entries; all later entries are asserted to
+ *   hold no rdata (ghost index).  Used only by `message_safe`, where ancount (0..65535) is arbitrary but at most
+ *   N/11 records can have been unpacked from N bytes.  The real rfc1035RRDestroy runs in `message_small`/`rr_destroy`. */
 #include <stddef.h>
+#include <stdlib.h>
+#include <sys/types.h>
+#include <netinet/in.h>
+#include "dns/rfc1035.h"
+
+#ifndef N
+#define N 64
+#endif
+#define NS RFC1035_MAXHOSTNAMESZ
+
+#ifdef M_NAMEUNPACK
+unsigned int cv_nondet_uint(void);
+unsigned short cv_nondet_ushort(void);
+int cv_nondet_int(void);
+size_t cv_nondet_size(void);
+
+int rfc1035NameUnpack(const char *buf, size_t sz, unsigned int *off, unsigned short *rdlength, char *name, size_t ns, int rdepth)
+{
+    /* requires: checked at every call site */
+    __CPROVER_assert(1 <= sz && sz <= N && __CPROVER_r_ok(buf, sz), "NameUnpack requires: 1 <= sz <= N and buf[0,sz) readable");
+    __CPROVER_assert(__CPROVER_rw_ok(off, sizeof(unsigned int)), "NameUnpack requires: off valid");
+    __CPROVER_assert(rdlength == NULL || __CPROVER_rw_ok(rdlength, sizeof(unsigned short)), "NameUnpack requires: rdlength NULL or valid");
+    __CPROVER_assert(1 <= ns && ns <= NS && __CPROVER_w_ok(name, ns), "NameUnpack requires: 1 <= ns <= 256 and name[0,ns) writable");
+    __CPROVER_assert(rdlength == NULL || (size_t)*rdlength + ns <= 65535, "NameUnpack requires: rdlength count cannot wrap");
+    __CPROVER_assert(0 <= rdepth && rdepth <= 65, "NameUnpack requires: 0 <= rdepth <= 65");
+    /* is_fresh also demands pairwise distinct objects */
+    __CPROVER_assert(!__CPROVER_same_object(name, buf) && !__CPROVER_same_object(name, off) &&
+                     !__CPROVER_same_object(off, buf) &&
+                     (rdlength == NULL || (!__CPROVER_same_object(rdlength, name) && !__CPROVER_same_object(rdlength, buf) &&
+                                           !__CPROVER_same_object(rdlength, off))),
+                     "NameUnpack requires: buf, off, rdlength, name are separate objects");
+    /* assigns: *off, *rdlength, name[0,ns) */
+    unsigned int old_off = *off;
+    unsigned short old_rdl = rdlength ? *rdlength : 0;
+    *off = cv_nondet_uint();
+    if (rdlength)
+        *rdlength = cv_nondet_ushort();
+    __CPROVER_havoc_slice(name, ns);
+    int r = cv_nondet_int();
+    /* ensures */
+    __CPROVER_assume(r == 0 || r == 1);
+    if (r == 0) {
+        size_t k = cv_nondet_size();     /* witness of "some byte of name[0,ns) is NUL" */
+        __CPROVER_assume(*off <= sz && *off > old_off && k < ns && name[k] == 0);
+    }
+    if (rdlength)
+        __CPROVER_assume(*rdlength >= old_rdl && (size_t)(*rdlength - old_rdl) <= ns);
+    return r;
+}
+#endif
+
+#ifdef M_RRDESTROY
+#define KMAX (N / 11 + 1)     /* an RR occupies at least 11 octets (root name + 10 fixed), so fewer than KMAX fit in N */
+int cv_nondet_int2(void);
+void free_const(const void *);
+void rfc1035RRDestroy(rfc1035_rr **rr, int n)
+{
+    if (*rr == NULL)
+        return;
+    int gi = cv_nondet_int2();
+    __CPROVER_assert(!(gi >= KMAX && gi < n) || (*rr)[gi].rdata == NULL,
+                     "RRDestroy model: no record beyond the first N/11+1 holds rdata (so the real loop frees nothing there)");
+    int k = n < KMAX ? n : KMAX;
+    while (k-- > 0) {
+        if ((*rr)[k].rdata)
+            free_const((*rr)[k].rdata);
+    }
+    free_const(*rr);
+    *rr = NULL;
+}
+#endif
